@@ -23,7 +23,7 @@ nativize_pathlib()
 ex._LICENSING = NativeLicensing(ex._LICENSING)
 
 NPATHS = int(PARAMS.get("npaths", 2))
-EXTS = [".py", ".xyz", ".json", ".png"]  # recognised, unrecognised, uncommentable, binary
+EXTS = [".py", ".xyz", ".json", ".png", ".c"]  # recognised, unrecognised, uncommentable, binary, binary content under a recognised name
 OUTCOMES = ["ok", "CommentCreateError", "MissingReuseInfoError"]
 FORCED = PARAMS.get("forced_style", "python")  # the --style value when MODE == "style"
 MODE = PARAMS.get("mode", "none")  # which of the mutually exclusive style options is given
@@ -92,14 +92,14 @@ def _b(x):
 def run_annotate(e0, o0, s0, e1, o1, s1, skip_existing, no_replace):
     specs = []
     for i, (e, o, s) in enumerate(((e0, o0, s0), (e1, o1, s1))[:NPATHS]):
-        specs.append((EXTS[_pick_from(e, [0, 1, 2, 3])], OUTCOMES[_pick_from(o, [0, 1, 2])], _b(s)))
+        specs.append((EXTS[_pick_from(e, [0, 1, 2, 3, 4])], OUTCOMES[_pick_from(o, [0, 1, 2])], _b(s)))
     FS.files = {}
     FS.touched = []
     paths = []
     outcome_of = {}
     for i, (ext, outcome, sibling) in enumerate(specs):
         p = f"/proj/src/f{i}{ext}"
-        FS.files[p] = "\x89PNG\x00" if ext == ".png" else "body\n"
+        FS.files[p] = "\x89PNG\x00" if ext == ".png" else ("rec\x00\x00ord\n" if ext == ".c" else "body\n")
         if sibling:
             FS.files[p + ".license"] = "SPDX-FileCopyrightText: 2019 Old\n\nSPDX-License-Identifier: 0BSD\n"
         paths.append(FakePath(p))
@@ -115,7 +115,7 @@ def run_annotate(e0, o0, s0, e1, o1, s1, skip_existing, no_replace):
             cur = builder.current
             oc = outcome_of.get(cur, "ok")
             if oc == "CommentCreateError":
-                raise CommentCreateError("cannot comment")
+                raise CommentCreateError("'Jane {Doe #}' contains a premature comment delimiter")
             if oc == "MissingReuseInfoError":
                 raise MissingReuseInfoError()
             return "HEADER\n" + text
@@ -134,7 +134,7 @@ def run_annotate(e0, o0, s0, e1, o1, s1, skip_existing, no_replace):
     saved = (ca.Path, ut.Path, ca.is_binary, an.find_and_replace_header, an.add_new_header, ca.add_header_to_file, getattr(an, "open", None))
     ca.Path = FakePath
     ut.Path = FakePath
-    ca.is_binary = lambda p: str(p).endswith(".png")
+    ca.is_binary = lambda p: str(p).endswith((".png", ".c"))
     an.find_and_replace_header = far
     an.add_new_header = anh
     ca.add_header_to_file = tracking_add
@@ -174,6 +174,8 @@ def run_annotate(e0, o0, s0, e1, o1, s1, skip_existing, no_replace):
             code = e.code
         except click.UsageError:
             code = "usage"
+        except Exception as e:  # noqa - anything else escaping the command is a crash for the user
+            code = f"escaped:{type(e).__name__}"
     finally:
         _sys.stdout = saved_stdout
         ca.Path, ut.Path, ca.is_binary, an.find_and_replace_header, an.add_new_header, ca.add_header_to_file = saved[:6]
@@ -202,7 +204,7 @@ def story(*a):
             elif sib:
                 st = _cm.EmptyCommentStyle
             else:
-                st = {".py": _cm.PythonCommentStyle, ".xyz": None, ".json": _cm.UncommentableCommentStyle, ".png": None}[ext]
+                st = {".py": _cm.PythonCommentStyle, ".xyz": None, ".json": _cm.UncommentableCommentStyle, ".png": None, ".c": _cm.get_comment_style("x.c")}[ext]
                 if ext == ".png":
                     st = _cm.get_comment_style("x.png")
             if st is None:
@@ -211,6 +213,8 @@ def story(*a):
                 usage = True
             if LINES == "multi" and not st.can_handle_multi():
                 usage = True
+    if isinstance(code, str) and code.startswith("escaped:"):
+        return f"the command ended in an unhandled {code[8:]}", specs, before, after, code
     if usage or code == "usage":
         if before != after:
             return "a usage error was raised after the tree had been touched", specs, before, after, code
@@ -221,7 +225,7 @@ def story(*a):
     for i, (ext, outcome, sibling) in enumerate(specs):
         p = f"/proj/src/f{i}{ext}"
         lic = p + ".license"
-        uses_license = ext in (".json", ".png") or MODE == "force_dot_license" or (ext == ".xyz" and MODE == "fallback_dot_license") or sibling
+        uses_license = ext in (".json", ".png", ".c") or MODE == "force_dot_license" or (ext == ".xyz" and MODE == "fallback_dot_license") or sibling
         # (an existing .license sibling is what all_paths hands on instead of the file)
         target = lic if uses_license else p
         skipped = ext == ".xyz" and MODE == "skip_unrecognised" and not sibling and False
@@ -271,7 +275,7 @@ def _mem(x, allowed):
 
 def _ann(e0: int, o0: int, s0: bool, e1: int, o1: int, s1: bool, skip_existing: bool, no_replace: bool) -> bool:
     """
-    pre: _mem(e0, [0, 1, 2, 3]) and _mem(o0, [0, 1, 2]) and (_mem(e1, [0, 1, 2, 3]) and _mem(o1, [0, 1, 2]) if NPATHS > 1 else (e1 == 0 and o1 == 0))
+    pre: _mem(e0, [0, 1, 2, 3, 4]) and _mem(o0, [0, 1, 2]) and (_mem(e1, [0, 1, 2, 3, 4]) and _mem(o1, [0, 1, 2]) if NPATHS > 1 else (e1 == 0 and o1 == 0))
     post: _
     """
     why = story(e0, o0, s0, e1, o1, s1, skip_existing, no_replace)[0]
@@ -280,7 +284,7 @@ def _ann(e0: int, o0: int, s0: bool, e1: int, o1: int, s1: bool, skip_existing: 
 
 def _ann_reach(e0: int, o0: int, s0: bool, e1: int, o1: int, s1: bool, skip_existing: bool, no_replace: bool) -> bool:
     """
-    pre: _mem(e0, [0, 1, 2, 3]) and _mem(o0, [0, 1, 2]) and (_mem(e1, [0, 1, 2, 3]) and _mem(o1, [0, 1, 2]) if NPATHS > 1 else (e1 == 0 and o1 == 0))
+    pre: _mem(e0, [0, 1, 2, 3, 4]) and _mem(o0, [0, 1, 2]) and (_mem(e1, [0, 1, 2, 3, 4]) and _mem(o1, [0, 1, 2]) if NPATHS > 1 else (e1 == 0 and o1 == 0))
     post: False
     """
     return story(e0, o0, s0, e1, o1, s1, skip_existing, no_replace)[0] is None
